@@ -91,3 +91,4 @@ def check(case):
 def shrink(case):
     yield from common.shrink_faults(case, ("strict", "warn"))
     yield from common.shrink_tasks(case, {"strict", "warn"})
+    yield from common.shrink_buffers(case, ("strict", "warn"))
